@@ -1,4 +1,5 @@
 import Ruint.Lemmas.FacadeC
+import Ruint.Lemmas.GenBinOps
 
 /-!
 # C20 — operator, wrapper and trait facades agree with the inherent methods
@@ -134,5 +135,46 @@ example : ctGt [5, 1] [7, 1] = false ∧ ctLt [5, 1] [7, 1] = true ∧ ctGt [0, 
   decide +kernel
 example : swapBytes 16 0x1234 = some 0x3412 ∧ swapBytes 12 0x123 = none := by decide +kernel
 example : nextMultipleOf 8 0xfe 7 = some 3 ∧ prevMultipleOf 8 0x17 5 = some 0x14 := by decide +kernel
+
+/-! ### the operator shapes of `impl_bin_op!` regenerated from `src/macros.rs` (`Gen/WordsBinOps.lean`)
+
+Each of the six shapes (`a ∘ b`, `a ∘ &b`, `&a ∘ b`, `&a ∘ &b`, `a ∘= b`, `a ∘= &b`) of `+ - * / %` — the macro arms instantiated for
+every invocation found in `src/add.rs`, `src/mul.rs`, `src/div.rs`, translated on every run — is the inherent wrapping method on
+the same operands in the same order, panic outcome included; the inherent methods themselves are tied to the models in
+C01 / C02 / C03. A swapped or substituted operand in one arm breaks this obligation whatever the inputs sampled. -/
+
+theorem gen_bin_op_shapes (f bits L : Nat) (a b : List Nat) :
+    (Ruint.Gen.op_add_assign_val f bits L a b = Ruint.Gen.uint_wrapping_add f bits L a b
+      ∧ Ruint.Gen.op_add_assign_ref f bits L a b = Ruint.Gen.uint_wrapping_add f bits L a b
+      ∧ Ruint.Gen.op_add_val_val f bits L a b = Ruint.Gen.uint_wrapping_add f bits L a b
+      ∧ Ruint.Gen.op_add_val_ref f bits L a b = Ruint.Gen.uint_wrapping_add f bits L a b
+      ∧ Ruint.Gen.op_add_ref_val f bits L a b = Ruint.Gen.uint_wrapping_add f bits L a b
+      ∧ Ruint.Gen.op_add_ref_ref f bits L a b = Ruint.Gen.uint_wrapping_add f bits L a b)
+    ∧ (Ruint.Gen.op_sub_assign_val f bits L a b = Ruint.Gen.uint_wrapping_sub f bits L a b
+      ∧ Ruint.Gen.op_sub_assign_ref f bits L a b = Ruint.Gen.uint_wrapping_sub f bits L a b
+      ∧ Ruint.Gen.op_sub_val_val f bits L a b = Ruint.Gen.uint_wrapping_sub f bits L a b
+      ∧ Ruint.Gen.op_sub_val_ref f bits L a b = Ruint.Gen.uint_wrapping_sub f bits L a b
+      ∧ Ruint.Gen.op_sub_ref_val f bits L a b = Ruint.Gen.uint_wrapping_sub f bits L a b
+      ∧ Ruint.Gen.op_sub_ref_ref f bits L a b = Ruint.Gen.uint_wrapping_sub f bits L a b)
+    ∧ (Ruint.Gen.op_mul_assign_val bits L a b = Ruint.Gen.uint_wrapping_mul bits L a b
+      ∧ Ruint.Gen.op_mul_assign_ref bits L a b = Ruint.Gen.uint_wrapping_mul bits L a b
+      ∧ Ruint.Gen.op_mul_val_val bits L a b = Ruint.Gen.uint_wrapping_mul bits L a b
+      ∧ Ruint.Gen.op_mul_val_ref bits L a b = Ruint.Gen.uint_wrapping_mul bits L a b
+      ∧ Ruint.Gen.op_mul_ref_val bits L a b = Ruint.Gen.uint_wrapping_mul bits L a b
+      ∧ Ruint.Gen.op_mul_ref_ref bits L a b = Ruint.Gen.uint_wrapping_mul bits L a b)
+    ∧ (Ruint.Gen.op_div_assign_val f bits L a b = Ruint.Gen.uint_wrapping_div f bits L a b
+      ∧ Ruint.Gen.op_div_assign_ref f bits L a b = Ruint.Gen.uint_wrapping_div f bits L a b
+      ∧ Ruint.Gen.op_div_val_val f bits L a b = Ruint.Gen.uint_wrapping_div f bits L a b
+      ∧ Ruint.Gen.op_div_val_ref f bits L a b = Ruint.Gen.uint_wrapping_div f bits L a b
+      ∧ Ruint.Gen.op_div_ref_val f bits L a b = Ruint.Gen.uint_wrapping_div f bits L a b
+      ∧ Ruint.Gen.op_div_ref_ref f bits L a b = Ruint.Gen.uint_wrapping_div f bits L a b)
+    ∧ (Ruint.Gen.op_rem_assign_val f bits L a b = Ruint.Gen.uint_wrapping_rem f bits L a b
+      ∧ Ruint.Gen.op_rem_assign_ref f bits L a b = Ruint.Gen.uint_wrapping_rem f bits L a b
+      ∧ Ruint.Gen.op_rem_val_val f bits L a b = Ruint.Gen.uint_wrapping_rem f bits L a b
+      ∧ Ruint.Gen.op_rem_val_ref f bits L a b = Ruint.Gen.uint_wrapping_rem f bits L a b
+      ∧ Ruint.Gen.op_rem_ref_val f bits L a b = Ruint.Gen.uint_wrapping_rem f bits L a b
+      ∧ Ruint.Gen.op_rem_ref_ref f bits L a b = Ruint.Gen.uint_wrapping_rem f bits L a b) :=
+  ⟨Ruint.GenBinOps.add_shapes f bits L a b, Ruint.GenBinOps.sub_shapes f bits L a b, Ruint.GenBinOps.mul_shapes bits L a b,
+   Ruint.GenBinOps.div_shapes f bits L a b, Ruint.GenBinOps.rem_shapes f bits L a b⟩
 
 end Ruint.C20
